@@ -463,6 +463,62 @@ example : styleSetOf defaultStyleList
     [['i','n','f','o'], ['c','o','m','m','e','n','t'], ['q','u','e','s','t','i','o','n'], ['e','r','r','o','r'],
      ['b'], ['u'], ['c','1'], ['c','2']] [] = [] := by decide
 
+/-- the hypothesis of `style_set_emptied` is decided by `emptiesB` on the regenerated default styles (hypothesis audit,
+round 10) -/
+theorem empties_decides (removed : List Str) :
+    emptiesB defaultStyleList removed = true ↔ ∀ s ∈ defaultStyleList, ∃ t, s.tag = some t ∧ t ∈ removed := by
+  unfold emptiesB
+  rw [List.all_eq_true]
+  constructor
+  · intro h s hs
+    have hh := h s hs
+    cases ht : s.tag with
+    | none => rw [ht] at hh; cases hh
+    | some t =>
+      rw [ht] at hh
+      exact ⟨t, rfl, by simpa using hh⟩
+  · intro h s hs
+    obtain ⟨t, ht, hm⟩ := h s hs
+    simp [ht, hm]
+
+/-- ... and the hypothesis is exact: the set is empty after the removals if and only if the decider says so (a style
+without a tag, or one whose tag was not removed, stays) -/
+theorem style_set_emptied_iff (removed : List Str) :
+    styleSetOf defaultStyleList removed [] = [] ↔ emptiesB defaultStyleList removed = true := by
+  unfold styleSetOf emptiesB
+  rw [List.append_nil, List.filter_eq_nil_iff, List.all_eq_true]
+  constructor
+  · intro h s hs
+    have hh := h s hs
+    cases ht : s.tag with
+    | none => simp [ht] at hh
+    | some t => simpa [ht] using hh
+  · intro h s hs
+    have hh := h s hs
+    cases ht : s.tag with
+    | none => rw [ht] at hh; cases hh
+    | some t => rw [ht] at hh; simpa [ht] using hh
+
+/-- `style_set_emptied` taking the decider the driver evaluates (`emptied` of `c11.render`, compared with whether the real
+`StyleSet` holds no style after the same `remove` calls) -/
+theorem style_set_emptied_decided (removed : List Str) (h : emptiesB defaultStyleList removed = true) :
+    styleSetOf defaultStyleList removed [] = [] :=
+  style_set_emptied removed ((empties_decides removed).mp h)
+
+/-- `style_set_emptied` applied: the eight default tags removed in another order, one of them twice -/
+example := style_set_emptied_decided
+    [['c','2'], ['b'], ['i','n','f','o'], ['c','o','m','m','e','n','t'], ['b'], ['q','u','e','s','t','i','o','n'],
+     ['e','r','r','o','r'], ['u'], ['c','1']] (by decide)
+example := style_set_emptied [['c','2'], ['b'], ['i','n','f','o'], ['c','o','m','m','e','n','t'],
+     ['q','u','e','s','t','i','o','n'], ['e','r','r','o','r'], ['u'], ['c','1']] ((empties_decides _).mp (by decide))
+
+/-- the decider is not constantly true: with `b` left in, the set is not empty (it holds exactly that style) -/
+example : emptiesB defaultStyleList [['i','n','f','o'], ['c','o','m','m','e','n','t'], ['q','u','e','s','t','i','o','n'],
+      ['e','r','r','o','r'], ['u'], ['c','1'], ['c','2']] = false ∧
+    (styleSetOf defaultStyleList [['i','n','f','o'], ['c','o','m','m','e','n','t'], ['q','u','e','s','t','i','o','n'],
+      ['e','r','r','o','r'], ['u'], ['c','1'], ['c','2']] []).map (·.tag) = [some ['b']] ∧
+    emptiesB defaultStyleList [] = false ∧ emptiesB [] [] = true := by decide
+
 /-! ## Non-vacuity -/
 
 /-- `sgr_call_ignores_registered_tag`: `zz` is registered as red, the call passes a bold `zz` -/
